@@ -20,8 +20,8 @@ _C_FUNCS = ['create', 'free', 'readInstanceFile', 'readBasisFile', 'readSettings
 def _stages(tier):
     # many small chunks: the known crashing wrappers (known_findings.d/C20.json) kill a worker per occurrence
     if tier == 'thorough':
-        return [dict(name='asan', harness='h_capi', flavour='asan', cases=36000, chunks_per_job=12),
-                dict(name='opt', harness='h_capi', flavour='opt', cases=110000, chunks_per_job=12)]
+        return [dict(name='asan', harness='h_capi', flavour='asan', cases=30000, chunks_per_job=12),
+                dict(name='opt', harness='h_capi', flavour='opt', cases=96000, chunks_per_job=12)]
     return [dict(name='asan', harness='h_capi', flavour='asan', cases=2000, chunks_per_job=4),
             dict(name='opt', harness='h_capi', flavour='opt', cases=6000, chunks_per_job=4)]
 
@@ -30,7 +30,7 @@ def _minima(tier):
     per_fn = 60 if tier == 'quick' else 1500
     m = {'calls.SoPlex_' + f: per_fn for f in _C_FUNCS}
     m['calls.SoPlex_getRowVectorRational'] = 40 if tier == 'quick' else 1000      # focus cases only (1 case in 64)
-    m.update({'cases': 7000 if tier == 'quick' else 130000, 'oracle.twin_compared': 100000 if tier == 'quick' else 2500000,
+    m.update({'cases': 7000 if tier == 'quick' else 115000, 'oracle.twin_compared': 100000 if tier == 'quick' else 2000000,
               'solves.real': 300, 'solves.rational': 100, 'solves.with_iterations': 200, 'string.checked': 100,
               'args.negative_numerator': 200, 'args.denominator_one': 200, 'args.near_2^62': 100, 'args.zero_nonzeros': 100,
               'args.nnonzeros_larger_than_needed': 100, 'args.dim_larger_than_needed': 200, 'cases.ctest': 100,
@@ -45,9 +45,14 @@ PROPS = {
                    'call by call, as the wrapped C++ calls on a mirror object; after every call all C++ accessors of both objects are compared '
                    '(reals bitwise, rationals exactly) and every value handed back through the C interface is compared with the C++ getter. '
                    'Arrays are heap blocks of exactly the contract length (ASan red zones) or canary-padded. Sampling: held on what was observed.',
-        level_note='trusts: GMP; twin determinism of SoPlex objects (equal histories give bitwise equal state); the contracts read off the header '
-                   'comments and the C test program (dim of change* vectors = numCols/numRows exactly; dim of get* arrays >= needed; '
-                   'getPrimalRationalString dim = numCols). Parameter values are restricted to a region without known solver crashes.',
+        level_note='trusts: GMP; twin determinism of SoPlex objects for floating-point solves (equal histories give bitwise equal state; every solve '
+                   'is first run on the mirror in a forked child and a history ends without verdict where the C++ solve dies or is not reproduced); the '
+                   'contracts read off the header comments, the wrapped C++ calls and the C test program (change* vectors: dim = numCols/numRows exactly; '
+                   'getPrimal/Dual/RedCostReal: dim >= needed; getLower/Upper/ObjReal and getPrimalRationalString: dim = numCols; getRowVector*: arrays of '
+                   '>= numCols elements; nnonzeros >= true count). Region: sync modes only-real/auto (no manual: the C interface has no sync call), '
+                   'parameter values without known solver crashes, no implicit growth of a scaled LP, exact solves only in the ASan flavour and only '
+                   'where the C++ exact solve ends OPTIMAL (the exact solver of this tree has memory errors of its own on infeasible/unbounded LPs). '
+                   'The crash-prone SoPlex_getRowVectorRational is exercised in its own short histories (1 case in 64).',
         technique='runtime monitoring: differential twin execution (C handle vs C++ mirror) under ASan+UBSan+LSan with exact-length and canary-padded '
                   'arrays, allocation tracking per C call (leaks, allocator of returned strings), plus an -O2 volume run',
         stages=_stages,
